@@ -1,2 +1,3 @@
 pub mod bigu;
 pub mod poly;
+pub mod ser;
